@@ -91,6 +91,36 @@ func ReplaceAll(s, old, new string) string {
 	return r + s[start:]
 }
 
+// ReplacerReplace models (*strings.Replacer).Replace for non-empty old strings: at each
+// position the first pair (in argument order) whose old string matches is applied,
+// matches do not overlap.
+func ReplacerReplace(oldnew []string, s string) string {
+	for i := 0; i < len(oldnew); i += 2 {
+		if len(oldnew[i]) == 0 {
+			panic("models.ReplacerReplace: empty old string not modelled")
+		}
+	}
+	r := ""
+	start := 0
+	for i := 0; i < len(s); {
+		matched := false
+		for k := 0; k+1 < len(oldnew); k += 2 {
+			old := oldnew[k]
+			if i+len(old) <= len(s) && s[i:i+len(old)] == old {
+				r += s[start:i] + oldnew[k+1]
+				i += len(old)
+				start = i
+				matched = true
+				break
+			}
+		}
+		if !matched {
+			i++
+		}
+	}
+	return r + s[start:]
+}
+
 // TrimLeft models strings.TrimLeft for an ASCII cutset.
 func TrimLeft(s, cutset string) string {
 	i := 0
